@@ -30,7 +30,7 @@ HasOp(n, ops) == n.op \in ops
 NoNegLook(g) == \A i \in 1..Len(g.prods) : ~HasOp(g.prods[i].body, {"neg", "look"})
 
 \* C13: lookahead values in increasing strength; -1 (unlimited) is the largest
-Stronger(a, b) == a # b /\ (b = -1 \/ (a # -1 /\ a < b))
+Stronger(a, b) == a # b /\ (b < 0 \/ (a >= 0 /\ a < b))   \* every negative value means unlimited
 IsOk(r) == r # "err" /\ r # "bug" /\ r # "skip"
 LookaheadMonotone ==
   (done /\ NoNegLook(G)) =>
